@@ -184,6 +184,20 @@ CHECKS = {
             "DESIGN.md §3 C16"),
 }
 
+CHECKS_EXTRA = {
+    "C18": ("bounded-exhaustive enumeration of (recursive declaration, max_depth, nested input) against a reference depth walk, "
+            "plus exact work counts from a counting leaf converter against a polynomial bound",
+            "9 ways of declaring recursion (Optional / plain / List / Tuple / Dict / Union / logical | / mutual recursion / "
+            "List[Optional]) x max_depth None,1..4 x inputs of data-class depth 1..6 with the nested value at list index 0/1/2, "
+            "mapping key 'k'/''/'0', either union branch, plus cyclic dicts and lists: accepted iff depth <= limit, excess and "
+            "cycles rejected with ParseError. Cost: 6 declarations with a counting Leaf converter x depth 1..8 x width 1..3 x "
+            "{valid, lenient-only, one invalid bottom leaf}: leaf conversions <= 4 n^2 + 8 for n input nodes.",
+            "Trusted: the 20-line reference depth walk; the counting converter registered by the harness (deterministic, no "
+            "timing). One recorded finding (3^depth retries of union stages on a failing leaf), identified by its growth factor.",
+            "DESIGN.md §3 C18"),
+}
+CHECKS.update(CHECKS_EXTRA)
+
 NOT_YET = "check not built yet in this round (planned, see DESIGN.md §3)"
 
 
